@@ -656,6 +656,7 @@ func (c *EvalCtx) evalCall(e *Expr) *V {
 	case "held":
 		argc(1)
 		ref := c.refOf(c.eval(e.Args[0]), e.Args[0])
+		c.run.addLockCand(ref)
 		return vInt(sSel(st.comp("held", 1, "Int"), ref), types.Typ[types.Int])
 	case "noLocksHeld":
 		argc(0)
